@@ -44,6 +44,7 @@ func c07Concurrent(x *mc.Cell, dir string, reports [][]int, bound int) {
 			_ = sys.Ch.TransferInitiated(chid)
 			mc.Wait()
 			s := sched.New(filter)
+			defer s.Close() // also on a diverged replay: parked library goroutines must be released before the world is torn down
 			for t, poss := range reports {
 				t, poss := t, poss
 				s.Go(fmt.Sprintf("reporter%d", t), func() {
@@ -216,6 +217,7 @@ func c07ConcurrentAfterReopen(x *mc.Cell, dir string, bound int) {
 			defer sys2.Stop()
 			mc.Wait()
 			s := sched.New(filter)
+			defer s.Close() // also on a diverged replay: parked library goroutines must be released before the world is torn down
 			s.Go("replayer0", func() { report(sys2, 2) })
 			s.Go("replayer1", func() { report(sys2, 1); report(sys2, 2) })
 			stuck, capped := s.Run(c, 5000, 0, 0)
